@@ -1,8 +1,18 @@
 """C15 — invariant testing covers every bounded call sequence.
 
 Obligations: T-invfilters (getter selectors, resolve_target_contracts, sender restriction,
-resolve_target_selectors regenerated from __main__.py), Props/C15.vo, lint, extraction.
+resolve_target_selectors regenerated from __main__.py), T-stateid (snapshot_state, the digest behind
+get_state_id, regenerated from cheatcodes.py), T-storedigest (StorageData.digest regenerated from
+sevm.py), T-pathslice (Path._get_related, the dependency update of Path.append, Path.slice regenerated from sevm.py; Exec.path_slice shape-checked), Props/C15.vo, lint, extraction.
 Ties:
+  X-C15-stateid (inside L3): for the setUp state and every successful end state of every target
+      transaction of every L3 run, the components of the state are read off the Exec (term ids, code
+      identities, storage items, path conditions, slice; independently: the conditions that mention a
+      symbol held in the state) and the ids the real get_state_id returned are compared with
+      (spec) the identity of Spec/StateIdSpec.v rendered in Python -- equal ids only for identical
+      states; every condition on a state symbol is in the slice -- and (model) the extracted
+      regenerated snapshot_state/StorageData.digest with a collision-free hash -- the same partition.
+      The frontier model then de-duplicates by the MODEL's state ids.
   X-C15-filters (L1): the real resolve_target_contracts / resolve_target_selectors vs the
       extracted regenerated model vs an independent Python rendering of Foundry's rule, on an
       exhaustive grid of filter sets.
@@ -21,18 +31,19 @@ import time
 from harness import common, pool
 
 PID = "C15"
-TRANSLATORS = ["T-invfilters"]
+TRANSLATORS = ["T-invfilters", "T-storedigest", "T-stateid", "T-pathslice"]
 
 # Genuine defects of halmos found by this check on the unchanged tree (see the final report).
 KNOWN = common.known_for("C15")  # entries live in /verif/known_findings.json
 
 ASSUMPTIONS = [
     "C15_cover / C15_pass_sound are conditional on their visible hypotheses: per-transaction completeness of the symbolic engine (property C02), completeness of the invariant's own run, and the merge hypothesis (equal state ids stand for the same concrete states, also w.r.t. the setUp state) -- the latter is refuted for block fields and for the setUp timestamp (C15_merge_identical_refuted, C15_merge_setup_refuted) and the refutations are reproduced on the real code",
-    "state ids are treated as abstract values (xxhash collisions, CPython id() reuse for code objects and z3 AST id reuse are not modelled)",
+    "state ids: C15_state_id_identical / C15_cover_snapshot assume collision-free hashes (xxh3_64 / xxh3_128 as injective functions into abstract digest types: a visible hypothesis), one storage-key shape per run (uniform_keys: visible hypothesis) and hash-consed terms (equal id = same term); a hash input is modelled as the list of its fixed-width items (32-byte words from int.to_bytes(_, length=32), 16-byte storage digests), not as bytes; CPython id() reuse for code objects and z3 AST id reuse are not modelled",
+    "the slice: Path._get_related / the dependency update of Path.append / Path.slice are regenerated and proved to give exactly the BACKWARD dependency closure of the state variables (C15_slice_exact); that this is smaller than the constraints on the state is a machine-checked witness (C15_slice_closure_refuted) reproduced on the real code (known finding). The variables of a term (Path.get_var_set, z3) and the sources of the state variables in Exec.path_slice (balance, symbolic code chunks, stored values: shape-checked by the translator) are inputs of the model: on every recorded state the symbols are recomputed from the z3 terms by the harness and the model's slice is compared with Path.sliced",
     "the reference interpreter (Spec/Evm.v) is the EVM oracle; vm.roll/fee/chainId/warp in handlers are given their Foundry meaning by the harness (the block field changes for the rest of the sequence)",
     "the extracted model and driver are faithful to the Coq definitions (extraction is trusted)",
 ]
-PARTIAL = ("the symbolic engine, state-id function and timestamp refresh are parameters of the frontier model (tied by feeding the model the outcomes recorded from the real run); "
+PARTIAL = ("the symbolic engine and the timestamp refresh are parameters of the frontier model (tied by feeding the model the outcomes recorded from the real run); the state id is the regenerated snapshot_state over the components recorded for each state (term ids, code identities, storage items, condition ids, slice), the slice the regenerated Path.slice over the recorded symbols of each condition; the two are not composed in one Coq function (term ids vs. symbols); "
            "--early-exit, multiple invariant tests sharing the cached frontier and solver timeouts are not modelled")
 
 TEST = 0x7FA9385BE102AC3EAC297483DD6233D62B3E1496
@@ -301,15 +312,176 @@ def l3_task(case):
     return out
 
 
-def encode_trace(trace, depth):
-    enc = [depth, trace["setup"][0], trace["setup"][1], len(trace["states"])]
+def encode_trace(trace, depth, classes=None):
+    """classes (uid -> state id according to the regenerated snapshot_state, see check_state_ids):
+    when given, the frontier model de-duplicates by the MODEL's state id; otherwise by the
+    recorded real one"""
+    sid = (lambda u, y: classes.get(u, y)) if classes else (lambda u, y: y)
+    enc = [depth, trace["setup"][0], sid(trace["setup"][0], trace["setup"][1]), len(trace["states"])]
     for u, groups in trace["states"].items():
         enc += [int(u), len(groups)]
         for g in groups:
             enc += [len(g["outcomes"])]
             for k, x, y in g["outcomes"]:
-                enc += [k, x, y]
+                enc += [k, x, sid(x, y) if k == 3 else y]
     return enc
+
+
+def state_tokens(trace):
+    """uid -> token of the id the real get_state_id returned (setUp state + every successful end state)"""
+    toks = {trace["setup"][0]: trace["setup"][1]}
+    for groups in trace["states"].values():
+        for g in groups:
+            for k, x, y in g["outcomes"]:
+                if k == 3 and y != -1:
+                    toks[x] = y
+    return toks
+
+
+def describe_difference(ca, cb):
+    from harness import c15_lib as B
+
+    ia, ib = B.spec_identity(ca), B.spec_identity(cb)
+    parts = []
+    for nm, x, y in zip(("balance term", "code", "storage terms"), ia[:3], ib[:3]):
+        if x != y:
+            parts.append(f"{nm} differ")
+    if ia[3] != ib[3]:
+        ta, tb = ca.get("cond_text", {}), cb.get("cond_text", {})
+        only_a = [ta.get(str(i), c) for i, c in enumerate(ca["conds"]) if c in ia[3] - ib[3]]
+        only_b = [tb.get(str(i), c) for i, c in enumerate(cb["conds"]) if c in ib[3] - ia[3]]
+        parts.append(f"constraints on state variables differ: {only_a} vs {only_b}")
+    return "; ".join(parts) or "no difference"
+
+
+FORWARD = "forward-related-constraint-not-in-slice"
+
+
+def check_state_ids(rep, name, trace, model, rerun):
+    """'States are merged only when they are identical', on the setUp state and every successful end
+    state of the run (the components were read off the Exec when get_state_id was called):
+      (spec)  every condition that constrains a symbol held in the state (Spec/PathSliceSpec.v
+              constrains, computed from the symbols of the terms) is in the slice; states with one real
+              id are identical (Spec/StateIdSpec.v same_identity with those constraints);
+      (model) the regenerated Path.append/_get_related/slice give the recorded slice; the regenerated
+              snapshot_state / StorageData.digest (identity hash) give the same partition as the real ids.
+    -> {"classes": uid -> model state id | None, "cause": why a violation may have been missed | None}"""
+    from harness import c15_lib as B
+
+    res = {"classes": None, "cause": None}
+    comps = {int(u): c for u, c in (trace.get("components") or {}).items()}
+    toks = state_tokens(trace)
+    uids = [u for u in toks if u in comps and "error" not in comps[u]]
+    if len(uids) != len(toks):
+        missing = [u for u in toks if u not in uids]
+        rep.fail("broken-tie", f"L3 case {name}: no state components recorded for states {missing[:5]} ({[comps.get(u) for u in missing[:2]]})", case=rerun)
+        return res
+    rep.coverage["state_ids_compared"] = rep.coverage.get("state_ids_compared", 0) + len(uids)
+    # ---- spec vs implementation: the constraints on the state are in the slice
+    reported = set()
+    for u in uids:
+        c = comps[u]
+        sl = set(c["sliced"] or ())
+        lost = sorted(B.spec_constraints(c) - sl)
+        if not lost:
+            continue
+        kind = "direct" if any(i in c.get("direct", []) for i in lost) else "forward-related"
+        sig = {"defect": "state-constraint-not-in-slice", "kind": kind, "cause": FORWARD if kind == "forward-related" else None}
+        if kind == "forward-related":
+            res["cause"] = FORWARD
+        if kind in reported:
+            continue
+        reported.add(kind)
+        txt = c.get("cond_text", {})
+        what = (f"L3 case {name}: state {u}: the path condition(s) {[txt.get(str(i), i) for i in lost]} constrain a symbol held in the state ({c.get('state_symbols')}"
+                + ("" if kind == "direct" else f", through {[txt.get(str(i), i) for i in sorted(sl)]}")
+                + f") but are not in the slice {sorted(sl)}: they are not part of the state id")
+        if known(sig):
+            note_known(rep, sig, what)
+        else:
+            rep.fail("failing-input", what, case=dict(rerun, states={str(u): c}), sig=sig)
+    if any(B.spec_constraints(comps[u]) for u in uids):
+        rep.count("l3_state_ids", "cases with constraints on state symbols")
+    # ---- spec vs implementation: equal id => identical
+    by_tok = {}
+    for u in uids:
+        by_tok.setdefault(toks[u], []).append(u)
+    merged = 0
+    seen_kinds = set()     # one report per kind of difference and case
+    for t, us in by_tok.items():
+        for u in us[1:]:
+            merged += 1
+            if B.spec_identity(comps[u]) != B.spec_identity(comps[us[0]]):
+                outside = B.spec_identity(comps[u], by_slice=True) == B.spec_identity(comps[us[0]], by_slice=True)
+                if outside in seen_kinds:
+                    break
+                seen_kinds.add(outside)
+                sig = {"defect": "non-identical-states-same-id", "differ": "outside-slice" if outside else "inside-slice", "cause": FORWARD if outside and res["cause"] == FORWARD else None}
+                what = (f"L3 case {name}: get_state_id gives ONE id to the states {us[0]} and {u}, which are not identical ({describe_difference(comps[us[0]], comps[u])}); "
+                        f"the second one is dropped from the frontier as already visited")
+                if known(sig):
+                    note_known(rep, sig, what)
+                else:
+                    rep.fail("failing-input", what, case=dict(rerun, states={str(us[0]): comps[us[0]], str(u): comps[u]}), sig=sig)
+                break
+    rep.count("l3_state_ids", "cases with merged end states" if merged else "cases without merged end states")
+    if any(len({B.spec_identity(comps[u])[3] for u in us}) > 1 for us in _by_terms(comps, uids).values()):
+        rep.count("l3_state_ids", "cases with states that differ only in their constraints")
+    if model is None:
+        return res
+    # ---- model vs implementation: the slice
+    calls = []
+    for u in uids:
+        c = comps[u]
+        enc = [len(c["cond_syms"])]
+        for s in c["cond_syms"]:
+            enc += [len(s)] + list(s)
+        enc += [len(c["state_syms"])] + list(c["state_syms"])
+        calls.append(("c15_slice", enc))
+    for u, mo in zip(uids, model.batch(calls)):
+        c = comps[u]
+        if mo is None or c["sliced"] is None or set(mo) != set(c["sliced"]):
+            rep.fail("broken-tie", f"L3 case {name}: state {u}: Path.sliced is {c['sliced']}, the regenerated append/_get_related/slice give {sorted(set(mo or []))} "
+                     f"for the conditions with symbols {c['cond_syms']} and the state symbols {c['state_syms']}", case=dict(rerun, states={str(u): c}))
+            return res
+    rep.coverage["slices_compared"] = rep.coverage.get("slices_compared", 0) + len(uids)
+    # ---- model vs implementation: the same partition by state id
+    mres = model.batch([("c15_state_classes", [len(uids)] + [z for u in uids for z in B.enc_components(comps[u])])])[0]
+    if mres is None or len(mres) != len(uids):
+        rep.fail("broken-tie", f"L3 case {name}: the state-id model failed on the recorded components", case=rerun)
+        return res
+    classes = dict(zip(uids, mres))
+    if any(c < 0 for c in mres):
+        rep.fail("broken-tie", f"L3 case {name}: the regenerated snapshot_state raises (path not sliced) on a state for which the real get_state_id returned an id", case=rerun)
+        return res
+    res["classes"] = classes
+    m2t, t2m = {}, {}
+    for u in uids:
+        m2t.setdefault(classes[u], set()).add(toks[u])
+        t2m.setdefault(toks[u], set()).add(classes[u])
+    for t, ms in t2m.items():
+        if len(ms) > 1:
+            us = [u for u in uids if toks[u] == t]
+            a = us[0]
+            b = next(u for u in us if classes[u] != classes[a])
+            rep.fail("broken-tie", f"L3 case {name}: state identity: the real get_state_id gives one id to the states {a} and {b}; the regenerated snapshot_state (collision-free hash) tells them apart ({describe_difference(comps[a], comps[b])})",
+                     case=dict(rerun, states={str(a): comps[a], str(b): comps[b]}))
+            return res
+    for m, ts in m2t.items():
+        if len(ts) > 1:
+            us = [u for u in uids if classes[u] == m]
+            rep.fail("broken-tie", f"L3 case {name}: state identity: the regenerated snapshot_state gives one id to the states {us}, the real get_state_id gives {len(ts)} different ids", case=dict(rerun, states={str(u): comps[u] for u in us[:3]}))
+            return res
+    return res
+
+
+def _by_terms(comps, uids):
+    from harness import c15_lib as B
+
+    out = {}
+    for u in uids:
+        out.setdefault(B.spec_identity(comps[u])[:3], []).append(u)
+    return out
 
 
 def decode_frontier(res, depth):
@@ -346,6 +518,10 @@ def check_l3(rep, case, out, model):
     if status not in ("PASS", "FAIL"):
         rep.fail("broken-tie", f"L3 case {name}: halmos did not produce PASS/FAIL for invariant_0() (status {status}, exit {out['halmos'].get('exitcode')}): {out.get('stdout_tail', '')[-300:]}", case=rerun)
         return
+    # ---- spec vs implementation, model vs implementation: state identity and the slice
+    sid = {"classes": None, "cause": None}
+    if trace and trace.get("setup"):
+        sid = check_state_ids(rep, name, trace, model, rerun)
     dup_dropped = False
     if trace and trace.get("setup"):
         kept = {u for f in trace["frontiers"].values() for u in f}
@@ -356,7 +532,8 @@ def check_l3(rep, case, out, model):
                         dup_dropped = True
     # ---- spec vs implementation: verdict
     if viol and status == "PASS":
-        sig = {"defect": "missed-violation", "needs": out.get("needs"), "dup_dropped": dup_dropped, "inv_kind": case["invariant"]["kind"]}
+        sig = {"defect": "missed-violation", "needs": out.get("needs"), "dup_dropped": dup_dropped, "inv_kind": case["invariant"]["kind"],
+               "cause": sid["cause"] if dup_dropped else None}
         what = (f"L3 case {name}: the call sequence {fmt_seq(out.get('witness'))} (admissible, length {br['inv_depth']} <= depth {d}) breaks the invariant on the reference interpreter, "
                 f"halmos reports [PASS] (needs={out.get('needs')}, duplicate dropped={dup_dropped})")
         if known(sig):
@@ -402,12 +579,13 @@ def check_l3(rep, case, out, model):
                 else:
                     rep.fail("failing-input", what, case=rerun, sig=sig)
                 break
+    classes = sid["classes"]
     # ---- model vs implementation: frontier
     if model is not None and trace and trace.get("setup"):
         if any(y == -1 for gs in trace["states"].values() for g in gs for k, x, y in g["outcomes"] if k == 3):
             rep.fail("broken-tie", f"L3 case {name}: a successful end state of a target transaction never reached the state-id / de-duplication stage of _compute_frontier", case=rerun)
             return
-        res = model.batch([("c15_frontier", encode_trace(trace, d))])[0]
+        res = model.batch([("c15_frontier", encode_trace(trace, d, classes))])[0]
         if res is None:
             rep.fail("broken-tie", f"L3 case {name}: frontier model failed on the recorded trace", case=rerun)
             return
@@ -440,6 +618,9 @@ QUICK_CORPUS = {
     "sender-excluded", "sender-targeted", "sender-target-minus-excluded", "not-sender-targeted2",
     "test-contract-not-targeted", "test-contract-selector-targeted",
     "value-needed", "time-after-other-call", "F9-roll", "setup-merge-time", "F12-probe", "value-balance",
+    "branch-cond-arg-small", "branch-cond-arg-big", "branch-cond-arg-d3", "branch-cond-arg-late-store",
+    "branch-cond-caller-eq", "branch-cond-value", "branch-cond-unrelated",
+    "branch-cond-related-lo", "branch-cond-related-hi", "branch-cond-forward-lo", "branch-cond-forward-hi",
 }
 
 
@@ -457,6 +638,9 @@ def gen_l3_cases(tier, r):
         i += 1
         if B.resolved_nonempty(c):
             cases.append(c)
+    # state identity: stored transaction values with a branch on them (see c15_lib.gen_branch_case)
+    for j in range(3 if tier == "quick" else 60):
+        cases.append(B.gen_branch_case(r, j, max_depth=2 if tier == "quick" else 3))
     return cases
 
 
@@ -466,7 +650,7 @@ def run(rep, tier):
     exe = None
     if b["make_ok"]:
         exe, log = common.build_driver(PID)
-        rep.obligation("extraction of the regenerated filter functions and Model/FrontierModel.v entry points + OCaml driver build", exe is not None, "" if exe else log[-800:])
+        rep.obligation("extraction of the regenerated filter functions, the regenerated snapshot_state / StorageData.digest and Model/FrontierModel.v entry points + OCaml driver build", exe is not None, "" if exe else log[-800:])
         if exe is None:
             rep.fail("broken-tie", "extracted model driver does not build: " + log[-400:], case={})
     model = common.Model(exe) if exe else None
@@ -491,12 +675,12 @@ def run(rep, tier):
     rep.coverage["l3_case_seconds"] = {c["name"]: o.get("seconds") for c, (st, o) in zip(cases, res) if st == "ok"}
     rep.coverage["known_in_module"] = [k["id"] for k in KNOWN]
     return rep.finish(
-        checker_cmd="make -C coq Props/C15.vo (coq_makefile, coqc 8.16.1) after regenerating coq/Gen/GenInvFilters.v from /repo/src/halmos/__main__.py",
+        checker_cmd="make -C coq Props/C15.vo (coq_makefile, coqc 8.16.1) after regenerating coq/Gen/GenInvFilters.v from /repo/src/halmos/__main__.py, coq/Gen/GenStateId.v from cheatcodes.py, coq/Gen/GenStorageDigest.v and coq/Gen/GenPathSlice.v from sevm.py",
         trusted_base=common.TRUSTED_BASE_COMMON + ["harness/asm.py + harness/c15_l3.py (assembler and fabricated forge artifacts), the stub `forge`", "coq/Spec/Evm.v extracted (reference interpreter) as the EVM oracle of the brute force"],
         assumptions=ASSUMPTIONS,
         partial=PARTIAL,
         rule=("L1: filter sets over a 3-address universe (test contract + two targets): all combinations of targetContracts x excludeContracts x targetSelectors (absent/empty/non-empty per address) x deployed sets (sampled in quick, exhaustive in thorough); selector filters over an 11-method table with view/pure/payable/reserved names, on the test contract and on another contract; all sender filter combinations over 3 addresses. "
-              "L3: hand-written corpus (depth off-by-one, revisited states, arguments, every filter kind, senders, values, timestamps, cheatcode block fields, probes) + grammar-generated targets (1-2 contracts, 1-3 guarded-transition functions over two slots, invariant on one slot, depth 0..3, random filter combination); "
+              "L3: hand-written corpus (depth off-by-one, revisited states, arguments, every filter kind, senders, values, timestamps, cheatcode block fields, probes; state identity: functions that store an argument / the sender / msg.value and branch on it -- directly or through a related condition -- without changing storage differently, followed by calls enabled on one side of the branch) + grammar-generated targets (1-2 contracts, 1-3 guarded-transition functions over two slots, invariant on one slot, depth 0..3, random filter combination) + grammar-generated state-identity targets (stored source arg|sender|value, comparison gt|lt|eq, constant, store before or after the branch, enabled functions on either side, optional bystander, depth 2..3); "
               "expected verdict = breadth-first brute force of all admissible call sequences (arguments from the constants of the code +-1, senders from the filters and guards, values 0/1/guard constants for payable functions, non-decreasing timestamps from the guard thresholds) on the extracted reference interpreter; a case is non-trivial when depth >= 1 (L3) or some filter is non-empty (L1); distinct by hash of the case"),
     )
 
